@@ -24,7 +24,7 @@ Result in one table (`q = ABCCost.q`, which is `0` exactly when `a = 0` and `x =
 | `HLQuadraticCost._cost/_deriv/_hess` | yes, unconditionally (`hlq_*_defined`) |
 | `ABCCost._cost` (`q ** b`) | yes (`abc_cost_defined`) |
 | `ABCCost._deriv` (`q ** (b-1)`) | iff `x_l = x_h ∨ a > 0 ∨ x < x_h ∨ b ≥ 1` (`abc_deriv_defined_iff`); **not** for `b ∈ (0,1)`, `a = 0` at the upper bound (`abc_deriv_counterexample`) |
-| `ABCCost._hess` (`q ** (b-2)`) | iff `x_l = x_h ∨ a > 0 ∨ x < x_h ∨ b ≥ 2` (`abc_hess_defined_iff`); **not** for `b ∈ (0,2)`, `a = 0` at the upper bound — including the linear `b = 1` (`abc_hess_counterexample`) |
+| `ABCCost._hess` (`q ** (b-2)`, skipped by the guard `x_l == x_h or b == 1`) | iff `x_l = x_h ∨ b = 1 ∨ a > 0 ∨ x < x_h ∨ b ≥ 2` (`abc_hess_defined_iff`); **not** for `b ∈ (0,2) \ {1}`, `a = 0` at the upper bound, e.g. `b = 3/2` (`abc_hess_counterexample`); for *integer* `b > 0` always (`idevice_model_defined`) |
 | `TDevice`'s `ABCCost(0, 2, c, t_min, t_optimal)` | yes, at every temperature (`tdevice_kernel_defined`) |
 -/
 -- the simp calls below carry deliberately redundant arguments (both orientations of the zero-width
@@ -191,10 +191,16 @@ theorem abc_deriv_defined_iff_pow (h : xl ≠ xh) :
   have hd : xh - xl ≠ 0 := sub_ne_zero.mpr (Ne.symm h)
   simp [Gen.abc_deriv_defined, Gen.abc_q_defined, Gen.abc_s_defined, h, hd, Ne.symm h, sub_eq_zero]
 
+/-- on the non-degenerate path the side-condition of `_hess` is the one of its power, unless the
+linear-curve guard `b == 1` returns `0` before the power is computed.
+(before the `b == 1` guard: `… ↔ powDef (Gen.abc_q x xl xh a) (b - 2)`) -/
 theorem abc_hess_defined_iff_pow (h : xl ≠ xh) :
-    Gen.abc_hess_defined Real.rpow powDef id x a b c xl xh ↔ powDef (Gen.abc_q x xl xh a) (b - 2) := by
+    Gen.abc_hess_defined Real.rpow powDef id x a b c xl xh
+      ↔ (b = 1 ∨ powDef (Gen.abc_q x xl xh a) (b - 2)) := by
   have hd : xh - xl ≠ 0 := sub_ne_zero.mpr (Ne.symm h)
-  simp [Gen.abc_hess_defined, Gen.abc_q_defined, Gen.abc_s_defined, h, hd, Ne.symm h, sub_eq_zero]
+  by_cases hb : b = 1
+  · simp [Gen.abc_hess_defined, hb]
+  · simp [Gen.abc_hess_defined, Gen.abc_q_defined, Gen.abc_s_defined, h, hd, hb, Ne.symm h, sub_eq_zero]
 
 /-- `ABCCost._cost`: exact characterisation inside the bounds. -/
 theorem abc_cost_defined_iff (hle : xl ≤ xh) (hx : xl ≤ x ∧ x ≤ xh) (ha : 0 ≤ a) :
@@ -228,9 +234,11 @@ theorem abc_deriv_defined (hle : xl ≤ xh) (hx : xl ≤ x ∧ x ≤ xh) (ha : 0
     Gen.abc_deriv_defined Real.rpow powDef id x a b c xl xh :=
   (abc_deriv_defined_iff x a b c xl xh hle hx ha).mpr hcorner
 
-/-- `ABCCost._hess`: exact characterisation inside the bounds. -/
+/-- `ABCCost._hess`: exact characterisation inside the bounds.
+(before the `b == 1` guard: `… ↔ (xl = xh ∨ 0 < a ∨ x < xh ∨ 2 ≤ b)`) -/
 theorem abc_hess_defined_iff (hle : xl ≤ xh) (hx : xl ≤ x ∧ x ≤ xh) (ha : 0 ≤ a) :
-    Gen.abc_hess_defined Real.rpow powDef id x a b c xl xh ↔ (xl = xh ∨ 0 < a ∨ x < xh ∨ 2 ≤ b) := by
+    Gen.abc_hess_defined Real.rpow powDef id x a b c xl xh
+      ↔ (xl = xh ∨ b = 1 ∨ 0 < a ∨ x < xh ∨ 2 ≤ b) := by
   by_cases h : xl = xh
   · simp [Gen.abc_hess_defined, h]
   · have hlt : xl < xh := lt_of_le_of_ne hle h
@@ -238,9 +246,10 @@ theorem abc_hess_defined_iff (hle : xl ≤ xh) (hx : xl ≤ x ∧ x ≤ xh) (ha 
       abc_q_pos_iff x xl xh a hlt hx ha, sub_nonneg]
     tauto
 
-/-- **`ABCCost._hess` is defined** under the strongest hypothesis that works (`b ≥ 2` at the corner). -/
+/-- **`ABCCost._hess` is defined** under the strongest hypothesis that works (`b = 1` or `b ≥ 2` at the
+corner).  (before the `b == 1` guard: `hcorner : xl = xh ∨ 0 < a ∨ x < xh ∨ 2 ≤ b`) -/
 theorem abc_hess_defined (hle : xl ≤ xh) (hx : xl ≤ x ∧ x ≤ xh) (ha : 0 ≤ a)
-    (hcorner : xl = xh ∨ 0 < a ∨ x < xh ∨ 2 ≤ b) :
+    (hcorner : xl = xh ∨ b = 1 ∨ 0 < a ∨ x < xh ∨ 2 ≤ b) :
     Gen.abc_hess_defined Real.rpow powDef id x a b c xl xh :=
   (abc_hess_defined_iff x a b c xl xh hle hx ha).mpr hcorner
 
@@ -249,7 +258,8 @@ end real
 /-- non-vacuity of the positive statements: the default IDevice curve (`a = 0, b = 2, c = 1`) on `[0, 2]`
 at its upper bound satisfies every hypothesis. -/
 example : (0 : ℝ) ≤ 2 ∧ ((0 : ℝ) ≤ 2 ∧ (2 : ℝ) ≤ 2) ∧ (0 : ℝ) ≤ 0 ∧ (0 : ℝ) < 2
-    ∧ ((0 : ℝ) = 2 ∨ (0 : ℝ) < 0 ∨ (2 : ℝ) < 2 ∨ (2 : ℝ) ≤ 2) := by norm_num
+    ∧ ((0 : ℝ) = 2 ∨ (0 : ℝ) < 0 ∨ (2 : ℝ) < 2 ∨ (2 : ℝ) ≤ 2)
+    ∧ ((0 : ℝ) = 2 ∨ (2 : ℝ) = 1 ∨ (0 : ℝ) < 0 ∨ (2 : ℝ) < 2 ∨ (2 : ℝ) ≤ 2) := by norm_num
 
 /-- **accepted but not usable (marginal cost)**: `IDevice(a = 0, b = 1/2, c = 1)` on `[0, 2]` is accepted
 (`a ≥ 0`, `b > 0`, `c ≥ 0`, `lb ≤ hb`), the flow `2` is in bounds, and `_deriv` computes `0 ** (−1/2)`. -/
@@ -260,14 +270,20 @@ theorem abc_deriv_counterexample :
   rw [abc_deriv_defined_iff 2 0 (1 / 2) 1 0 2 (by norm_num) (by norm_num) (le_refl _)]
   norm_num
 
-/-- **accepted but not usable (Hessian)**: already the *linear* curve `IDevice(a = 0, b = 1, c = 1)` on
-`[0, 2]` computes `1·1·0·0 ** (−1)` at the upper bound (Python raises before multiplying by `b − 1 = 0`). -/
+/-- **accepted but not usable (Hessian)**: `IDevice(a = 0, b = 3/2, c = 1)` on `[0, 2]` computes
+`0 ** (−1/2)` at the upper bound.  (The linear curve `b = 1`, the witness before the `b == 1` guard was
+added to `ABCCost._hess`, is no longer a counterexample: `abc_hess_linear_defined`.) -/
 theorem abc_hess_counterexample :
     ∃ x a b c xl xh : ℝ, xl ≤ xh ∧ (xl ≤ x ∧ x ≤ xh) ∧ 0 ≤ a ∧ 0 < b ∧ 0 ≤ c
       ∧ ¬ Gen.abc_hess_defined Real.rpow powDef id x a b c xl xh := by
-  refine ⟨2, 0, 1, 1, 0, 2, by norm_num, by norm_num, le_refl _, by norm_num, by norm_num, ?_⟩
-  rw [abc_hess_defined_iff 2 0 1 1 0 2 (by norm_num) (by norm_num) (le_refl _)]
+  refine ⟨2, 0, 3 / 2, 1, 0, 2, by norm_num, by norm_num, le_refl _, by norm_num, by norm_num, ?_⟩
+  rw [abc_hess_defined_iff 2 0 (3 / 2) 1 0 2 (by norm_num) (by norm_num) (le_refl _)]
   norm_num
+
+/-- the linear curve `b = 1` never reaches the power: defined for *all* real arguments. -/
+theorem abc_hess_linear_defined (x a c xl xh : ℝ) :
+    Gen.abc_hess_defined Real.rpow powDef id x a 1 c xl xh := by
+  simp [Gen.abc_hess_defined]
 
 /-- IDevice, all slots: the cost kernel is defined for every accepted device at every in-bounds flow. -/
 theorem idevice_cost_defined (n : ℕ) (lb hb a b c s : ℕ → ℝ) (hbd : accBounds n lb hb)
@@ -284,11 +300,12 @@ theorem idevice_deriv_defined_iff (n : ℕ) (lb hb a b c s : ℕ → ℝ) (hbd :
   forall₂_congr fun k hk => abc_deriv_defined_iff _ _ _ _ _ _ (hbd k hk) (hs k hk) (hacc k hk).1
 
 /-- IDevice, all slots: the Hessian kernel is defined iff no slot sits in the corner
-`a_k = 0 ∧ s_k = hb_k ∧ lb_k < hb_k ∧ b_k < 2`. -/
+`a_k = 0 ∧ s_k = hb_k ∧ lb_k < hb_k ∧ b_k < 2 ∧ b_k ≠ 1`.
+(before the `b == 1` guard: `… ↔ ∀ k < n, lb k = hb k ∨ 0 < a k ∨ s k < hb k ∨ 2 ≤ b k`) -/
 theorem idevice_hess_defined_iff (n : ℕ) (lb hb a b c s : ℕ → ℝ) (hbd : accBounds n lb hb)
     (hacc : ∀ k < n, 0 ≤ a k ∧ 0 < b k ∧ 0 ≤ c k) (hs : InBox n lb hb s) :
     (∀ k < n, Gen.abc_hess_defined Real.rpow powDef id (s k) (a k) (b k) (c k) (lb k) (hb k))
-      ↔ ∀ k < n, lb k = hb k ∨ 0 < a k ∨ s k < hb k ∨ 2 ≤ b k :=
+      ↔ ∀ k < n, lb k = hb k ∨ b k = 1 ∨ 0 < a k ∨ s k < hb k ∨ 2 ≤ b k :=
   forall₂_congr fun k hk => abc_hess_defined_iff _ _ _ _ _ _ (hbd k hk) (hs k hk) (hacc k hk).1
 
 /-- with exponents `≥ 2` (the default is `2`) an accepted IDevice is usable on its whole box. -/
@@ -302,7 +319,7 @@ theorem idevice_all_defined (n : ℕ) (lb hb a b c s : ℕ → ℝ) (hbd : accBo
   · exact abc_deriv_defined _ _ _ _ _ _ (hbd k hk) (hs k hk) (hacc k hk).1
       (Or.inr (Or.inr (Or.inr (by linarith [hb2 k hk]))))
   · exact abc_hess_defined _ _ _ _ _ _ (hbd k hk) (hs k hk) (hacc k hk).1
-      (Or.inr (Or.inr (Or.inr (hb2 k hk))))
+      (Or.inr (Or.inr (Or.inr (Or.inr (hb2 k hk)))))
 
 /-- non-vacuity: a three-slot IDevice with one zero-width slot, at its upper bounds. -/
 example : ∃ lb hb a b c s : ℕ → ℝ, accBounds 3 lb hb ∧ (∀ k < 3, 0 ≤ a k ∧ 0 < b k ∧ 0 ≤ c k)
@@ -341,14 +358,21 @@ theorem abc_deriv_defined_int_iff (hle : xl ≤ xh) (hx : xl ≤ x ∧ x ≤ xh)
       sub_nonneg]
     tauto
 
+/-- (before the `b == 1` guard: `… ↔ (xl = xh ∨ 0 < a ∨ x < xh ∨ 2 ≤ b)`) -/
 theorem abc_hess_defined_int_iff (hle : xl ≤ xh) (hx : xl ≤ x ∧ x ≤ xh) (ha : 0 ≤ a) :
-    Gen.abc_hess_defined ipow ipowDef intCast' x a b c xl xh ↔ (xl = xh ∨ 0 < a ∨ x < xh ∨ 2 ≤ b) := by
+    Gen.abc_hess_defined ipow ipowDef intCast' x a b c xl xh
+      ↔ (xl = xh ∨ b = 1 ∨ 0 < a ∨ x < xh ∨ 2 ≤ b) := by
   by_cases h : xl = xh
   · simp [Gen.abc_hess_defined, h]
   · have hlt : xl < xh := lt_of_le_of_ne hle h
     have hd : xh - xl ≠ 0 := sub_ne_zero.mpr (Ne.symm h)
-    have e : Gen.abc_hess_defined ipow ipowDef intCast' x a b c xl xh ↔ ipowDef (Gen.abc_q x xl xh a) (b - 2) := by
-      simp [Gen.abc_hess_defined, Gen.abc_q_defined, Gen.abc_s_defined, h, hd, Ne.symm h, sub_eq_zero]
+    have hc : (intCast' b : ℝ) = 1 ↔ b = 1 := by rw [intCast'_eq]; exact Int.cast_eq_one
+    have e : Gen.abc_hess_defined ipow ipowDef intCast' x a b c xl xh
+        ↔ (b = 1 ∨ ipowDef (Gen.abc_q x xl xh a) (b - 2)) := by
+      by_cases hb : b = 1
+      · simp [Gen.abc_hess_defined, hb, hc]
+      · simp [Gen.abc_hess_defined, Gen.abc_q_defined, Gen.abc_s_defined, h, hd, hb, hc, Ne.symm h,
+          sub_eq_zero]
     rw [e, ipowDef_iff_of_nonneg (abc_q_nonneg x xl xh a hlt hx ha), abc_q_pos_iff x xl xh a hlt hx ha,
       sub_nonneg]
     tauto
@@ -356,20 +380,25 @@ theorem abc_hess_defined_int_iff (hle : xl ≤ xh) (hx : xl ≤ x ∧ x ≤ xh) 
 end int
 
 /-- the executable IDevice model under its own acceptance predicate: cost always defined; marginal cost
-always defined (integer `b > 0` is `b ≥ 1`); Hessian defined iff no slot has `a = 0`, `b = 1` at the
-upper bound of a non-degenerate slot. -/
+always defined (integer `b > 0` is `b ≥ 1`); Hessian always defined (integer `b > 0` is `b = 1`, caught by
+the `b == 1` guard, or `b ≥ 2`).
+(before the `b == 1` guard the third part was only
+`(∀ k < n, Gen.abc_hess_defined …) ↔ ∀ k < n, lb k = hb k ∨ 0 < a k ∨ s k < hb k ∨ 2 ≤ b k`) -/
 theorem idevice_model_defined (n : ℕ) (lb hb a : ℕ → ℝ) (b : ℕ → ℤ) (c s : ℕ → ℝ)
     (hbd : accBounds n lb hb) (hacc : accABC n a b c) (hs : InBox n lb hb s) :
     (∀ k < n, Gen.abc_cost_defined ipow ipowDef (s k) (a k) (b k) (c k) (lb k) (hb k))
     ∧ (∀ k < n, Gen.abc_deriv_defined ipow ipowDef intCast' (s k) (a k) (b k) (c k) (lb k) (hb k))
-    ∧ ((∀ k < n, Gen.abc_hess_defined ipow ipowDef intCast' (s k) (a k) (b k) (c k) (lb k) (hb k))
-        ↔ ∀ k < n, lb k = hb k ∨ 0 < a k ∨ s k < hb k ∨ 2 ≤ b k) := by
-  refine ⟨fun k hk => ?_, fun k hk => ?_, forall₂_congr fun k hk => ?_⟩
+    ∧ (∀ k < n, Gen.abc_hess_defined ipow ipowDef intCast' (s k) (a k) (b k) (c k) (lb k) (hb k)) := by
+  refine ⟨fun k hk => ?_, fun k hk => ?_, fun k hk => ?_⟩
   · exact (abc_cost_defined_int_iff _ _ _ _ _ _ (hbd k hk) (hs k hk) (hacc k hk).1).mpr
       (Or.inr (Or.inr (Or.inr (le_of_lt (hacc k hk).2.1))))
   · exact (abc_deriv_defined_int_iff _ _ _ _ _ _ (hbd k hk) (hs k hk) (hacc k hk).1).mpr
       (Or.inr (Or.inr (Or.inr (hacc k hk).2.1)))
-  · exact abc_hess_defined_int_iff _ _ _ _ _ _ (hbd k hk) (hs k hk) (hacc k hk).1
+  · refine (abc_hess_defined_int_iff _ _ _ _ _ _ (hbd k hk) (hs k hk) (hacc k hk).1).mpr ?_
+    have hb0 : 0 < b k := (hacc k hk).2.1
+    rcases (show b k = 1 ∨ 2 ≤ b k by omega) with h1 | h2
+    · exact Or.inr (Or.inl h1)
+    · exact Or.inr (Or.inr (Or.inr (Or.inr h2)))
 
 /-- non-vacuity: `accABC` / `accBounds` / `InBox` are jointly satisfiable. -/
 example : ∃ (lb hb a : ℕ → ℝ) (b : ℕ → ℤ) (c s : ℕ → ℝ),
